@@ -538,6 +538,20 @@ EvCTinfl ==
   /\ l' = l + 1
   /\ Keep(<<acc, cs, ip, cid, dc, ds, ss, cc, seen>>)
 
+\* tdefl_compress / tdefl_compress_buffer against compress() / compress_to_output()
+EvCTdefl ==
+  /\ Is("c_tdefl")
+  /\ LET e == E
+         fails ==
+              CIff("c_tdefl_same_status_as_rust", e.status = e.twin.status /\ e.prev = e.twin_prev)
+           \o CIff("c_tdefl_same_counts_as_rust", e.consumed = e.twin.consumed /\ e.written = e.twin.written)
+           \o CIff("c_tdefl_same_bytes_as_rust", e.data = e.twin_data)
+           \o CIff("c_tdefl_same_adler_as_rust", e.adler = e.twin_adler)
+           \o CIff("c_tdefl_counts_within_offered", e.consumed <= e.in_len /\ (e.out_len >= 0 => e.written <= e.out_len))
+     IN Report(fails, 5)
+  /\ l' = l + 1
+  /\ Keep(<<acc, cs, ip, cid, dc, ds, ss, cc, seen>>)
+
 EvCBound ==
   /\ Is("c_bound")
   /\ LET e == E
@@ -597,7 +611,7 @@ Known == {"case", "input", "stream", "compressed", "roundtrip", "panic", "hang",
           "comp_new", "comp", "flushpoint", "defl", "defl_end",
           "dnew", "dec", "dec_end", "equiv", "state_same", "vec", "sliceiter", "inf_new", "inf", "inf_end", "equiv_s", "cksum",
           "c_init", "c_call", "c_reset", "c_end", "c_misuse", "c_compress", "c_compressed_valid",
-          "c_uncompress", "c_mem_to_mem", "c_mem_to_heap", "c_bound", "c_tinfl", "pair", "bb", "bb_end", "note", "gen_expect", "zhdr"}
+          "c_uncompress", "c_mem_to_mem", "c_mem_to_heap", "c_bound", "c_tinfl", "c_tdefl", "pair", "bb", "bb_end", "note", "gen_expect", "zhdr"}
 
 \* an event the spec has no action for is itself a failure (never silently skipped)
 EvUnknown ==
@@ -612,7 +626,7 @@ Next == \/ EvCase \/ EvInput \/ EvStream \/ AccRun \/ EvStreamDone
         \/ EvDNew \/ EvDec \/ EvDecEnd \/ EvStateSame \/ EvEquiv \/ EvVec \/ EvSliceIter
         \/ EvInfNew \/ EvInf \/ EvInfEnd \/ EvEquivS \/ EvCksum
         \/ EvCInit \/ EvCCall \/ EvCReset \/ EvCEnd \/ EvCMisuse \/ EvCCompress \/ EvCCompressedValid
-        \/ EvCUncompress \/ EvCMemToMem \/ EvCMemToHeap \/ EvCBound \/ EvCTinfl
+        \/ EvCUncompress \/ EvCMemToMem \/ EvCMemToHeap \/ EvCBound \/ EvCTinfl \/ EvCTdefl
         \/ EvPair \/ EvBB \/ EvBBEnd \/ EvNote \/ EvGenExpect \/ EvZHdr
         \/ EvUnknown
 
